@@ -559,18 +559,33 @@ def run(chk):
     ok = tv is not None and all(gr.exit.id not in gr.reachable(gr.by_ast.get(id(h), [])) and any(isinstance(x, ast.Raise) and "TrackSyntaxError" in u(x.exc) for x in ast.walk(h)) for h in tv.handlers)
     chk.ob("O10.4", "validation errors re-raised as track syntax errors", ok, tv if tv is not None else rd, "")
     # the window is evaluated, not read off the comparison text: with representative bounds 2..4 the rejecting conditions of the dominating checks must reject exactly 1 and 5
-    vt = [n for n in source.flat(rd.body) if isinstance(n, ast.If) and "SUPPORTED_TRACK_VERSION" in u(n.test)]
+    # role: the version local is the one bound from a read of the "version" key; the window tests are the ifs on it (the bounds may be named class constants or, after constant
+    # propagation N9, literals: they are evaluated with the class's actual bounds either way)
+    vnames = {t.id for n in walk_body(rd) if isinstance(n, ast.Assign) for t in n.targets if isinstance(t, ast.Name)
+              and any(isinstance(x, ast.Constant) and x.value == "version" for x in ast.walk(n.value))}
+    for _ in range(4):  # ... and what is computed from it (`track_version = int(raw_version)`)
+        vnames |= {t.id for n in walk_body(rd) if isinstance(n, ast.Assign) for t in n.targets if isinstance(t, ast.Name)
+                   and any(isinstance(x, ast.Name) and x.id in vnames for x in ast.walk(n.value))}
+    vt = [n for n in source.flat(rd.body) if isinstance(n, ast.If) and any(isinstance(x, ast.Name) and x.id in vnames for x in ast.walk(n.test))
+          and any(isinstance(x, ast.Compare) for x in ast.walk(n.test))]
     rej = [rejecting_condition(gr, n) for n in vt]
     tests = sorted(u(n.test) for n in vt)
     ok = bool(vt) and all(gr.dominated_by_nodes(bn, [gr.node_of(n)]) for n in vt) and all(r is not None for r in rej)
     ver_locals = {x.id for n in vt for x in ast.walk(n.test) if isinstance(x, ast.Name) and x.id not in ("TrackFileReader", "self")}
     detail = f"{tests}"
     if ok and len(ver_locals) == 1:
-        bounds = Record(MINIMUM_SUPPORTED_TRACK_VERSION=2, MAXIMUM_SUPPORTED_TRACK_VERSION=4)
+        cvals = {}
+        for st_ in ldr.cls("TrackFileReader").body:
+            if isinstance(st_, ast.Assign) and len(st_.targets) == 1 and isinstance(st_.targets[0], ast.Name) and isinstance(st_.value, ast.Constant) and isinstance(st_.value.value, int):
+                cvals[st_.targets[0].id] = st_.value.value
+        lo_, hi_ = cvals.get("MINIMUM_SUPPORTED_TRACK_VERSION"), cvals.get("MAXIMUM_SUPPORTED_TRACK_VERSION")
+        if lo_ is None or hi_ is None or lo_ > hi_:
+            raise AnchorMissing("supported track version bounds (class constants of TrackFileReader)")
+        bounds = Record(**cvals)
         try:
-            rows = {v: any(bool(ev(r, {next(iter(ver_locals)): v, "TrackFileReader": bounds, "self": bounds})) for r in rej) for v in (1, 2, 3, 4, 5)}
-            ok = rows == {1: True, 2: False, 3: False, 4: False, 5: True}
-            detail = f"{tests}; with supported versions 2..4 rejected: {sorted(v for v, r in rows.items() if r)}"
+            rows = {v: any(bool(ev(r, {next(iter(ver_locals)): v, "TrackFileReader": bounds, "self": bounds})) for r in rej) for v in sorted({lo_ - 1, lo_, hi_, hi_ + 1})}
+            ok = rows == {v: not (lo_ <= v <= hi_) for v in rows}
+            detail = f"{tests}; with supported versions {lo_}..{hi_} rejected: {sorted(v for v, r in rows.items() if r)}"
         except CannotEval as e:
             ok = False
             detail = f"{tests}; cannot evaluate: {e}"
